@@ -18,6 +18,7 @@ const (
 	tBool
 	tList // array or slice of elem
 	tOpt  // pointer to a viewed struct
+	tBuf  // a mutable []byte buffer (local variable, or the target of a *[]byte parameter): GoSem.gobuf = backing array + length
 )
 
 type ctype struct {
@@ -39,6 +40,10 @@ func (c ctype) String() string {
 		return "(list " + c.elem.String() + ")"
 	case tOpt:
 		return "(option " + c.elem.String() + ")"
+	case tBuf:
+		return "gobuf"
+	case tErr: // errors.go
+		return "go_error"
 	}
 	return "?"
 }
@@ -55,6 +60,10 @@ func (c ctype) zero() string {
 		return "false"
 	case tOpt:
 		return "None"
+	case tBuf:
+		return "buf_nil"
+	case tErr: // errors.go
+		return "go_nil_error"
 	}
 	return "?"
 }
@@ -68,7 +77,46 @@ func (f *fnCtx) ctypeOf(T types.Type, at ast.Node) ctype {
 	return c
 }
 
+// isByteSlice: exactly []byte (unnamed element type uint8).
+func isByteSlice(T types.Type) bool {
+	sl, ok := T.Underlying().(*types.Slice)
+	return ok && types.Identical(sl.Elem(), types.Typ[types.Uint8])
+}
+
+// isByteSlicePtr: *[]byte
+func isByteSlicePtr(T types.Type) bool {
+	pt, ok := T.Underlying().(*types.Pointer)
+	return ok && isByteSlice(pt.Elem())
+}
+
+// ctypeOfObj is the representation of a variable.  A []byte PARAMETER passed by value is only ever
+// read (index assignment to it is refused) and is represented by its contents (bytes).  A LOCAL
+// []byte variable and the target of a *[]byte parameter are mutable buffers: gobuf (backing array
+// up to the capacity + length), under the aliasing discipline of buf.go.
+func (f *fnCtx) ctypeOfObj(o types.Object, at ast.Node) ctype {
+	if f.isBufVar(o) {
+		return ctype{k: tBuf}
+	}
+	return f.ctypeOf(o.Type(), at)
+}
+
+func (f *fnCtx) isBufVar(o types.Object) bool {
+	if o == nil {
+		return false
+	}
+	if _, ok := o.(*types.Var); !ok {
+		return false
+	}
+	if f.outParam[o] {
+		return true
+	}
+	return isByteSlice(o.Type()) && !f.byval[o] && o.Parent() != f.p.pkg.Scope()
+}
+
 func (f *fnCtx) tryCtype(T types.Type) (ctype, bool) {
+	if c, ok := errCtype(T); ok { // errors.go: the predeclared type error
+		return c, true
+	}
 	if types.Identical(T, types.Typ[types.Uint8]) {
 		return ctype{k: tByte}, true
 	}
@@ -187,7 +235,9 @@ func init() {
 		Some None true false negb andb orb fst snd length rev firstn skipn map app nil cons
 		go_index go_slice go_slice_from go_slice_to go_deref go_isnil bz byte_ltb byte_leb go_uint_shr
 		strings_IndexByte strings_LastIndexByte strings_HasPrefix strings_HasSuffix strings_TrimPrefix
-		strings_TrimSuffix strings_Contains decode_rune bytes_eqb S2B B ascii ascii_of_N O S`) {
+		strings_TrimSuffix strings_Contains decode_rune bytes_eqb S2B B ascii ascii_of_N O S
+		gobuf buf_nil buf_len buf_cap buf_make buf_reslice_to buf_index buf_set buf_copy buf_string b_arr b_len
+		zero_byte list_set repeat`) {
 		reserved[w] = true
 	}
 }
